@@ -13,8 +13,13 @@ def h(obj: Any) -> int:
     return int.from_bytes(hashlib.blake2b(repr(obj).encode(), digest_size=8).digest(), "big")
 
 
+class StopShard(Exception):
+    """The tree under test stalls again and again (hangs / blocks outside the owned primitives): stop exploring."""
+
+
 class Acc:
     MAX_VIOL_PER_SIG = 2
+    MAX_STALLS = 6
 
     def __init__(self, check_id: str, shard: int, nshards: int, budget_s: float):
         self.check_id, self.shard, self.nshards = check_id, shard, nshards
@@ -33,9 +38,19 @@ class Acc:
         self.capped_at = None
         self.extra: Dict[str, Any] = {}
         self.selfcheck = 0
+        self.stalls = 0
 
     def out_of_time(self) -> bool:
         return time.time() - self.t0 > self.budget_s
+
+    def stall(self, res) -> None:
+        """Call for every execution result: counts executions that hung or needed forced completions."""
+        if getattr(res, "outcome", "") == "hang" or getattr(res, "forced", 0):
+            self.stalls += 1
+            if self.stalls >= self.MAX_STALLS:
+                self.capped_at = self.cases
+                self.extra["stopped_after_stalls"] = self.stalls
+                raise StopShard()
 
     def add_hits(self, hits: Dict[str, int]) -> None:
         for k, v in hits.items():
